@@ -34,35 +34,53 @@ Proof.
   destruct (handle_infos infos nl) as [[|r0 rs']|e]; [intros H; apply IH in H; lia|intros H; injection H as _ <-; lia|intros H; injection H as _ <-; lia].
 Qed.
 
+(* loadLastRegion *)
+Lemma load_last_bounded : forall fuel t start r t',
+  load_last pd budget fuel t start = (r, t') -> (t <= t' <= Nat.max t budget)%nat.
+Proof.
+  induction fuel as [|f IH]; intros t start r t'; cbn [load_last]; [intros H; injection H as _ <-; lia|].
+  destruct (scan_loop pd budget (S f) t (ReqScan start [] 128) [(start, [])] 128 true) as [[regs|e] t1] eqn:Es; apply scan_loop_bounded in Es;
+    [|intros H; injection H as _ <-; lia].
+  destruct (rev regs) as [|lastr x]; [intros H; injection H as _ <-; lia|].
+  destruct (is_nil (r_end lastr)); [intros H; injection H as _ <-; lia|]. intros H. apply IH in H. lia.
+Qed.
+Lemma load_for_bounded c fuel t key is_end r t' :
+  load_for pd budget c fuel t key is_end = (r, t') -> (t <= t' <= Nat.max t budget)%nat.
+Proof. unfold load_for. destruct (is_end && is_nil key); [apply load_last_bounded|apply load_region_bounded]. Qed.
+
 (* LocateKey / LocateEndKey *)
 Lemma find_region_by_key_bounded fuel t c key is_end r c' t' :
   find_region_by_key pd budget fuel t c key is_end = (r, c', t') -> (t <= t' <= Nat.max t budget)%nat.
 Proof.
   unfold find_region_by_key.
-  assert (Hmiss : match load_region pd budget fuel t key is_end false with
+  assert (Hmiss : match load_for pd budget c fuel t key is_end with
     | (Err e, t1) => (Err e, c, t1)
     | (Ok lr, t1) =>
         let '(ok, c1) := insert_new c lr in
         if ok then (Ok (as_stored c lr), c1, t1)
-        else match load_region pd budget fuel t1 key is_end false with
+        else match load_for pd budget c1 fuel t1 key is_end with
              | (Err e, t2) => (Err e, c1, t2)
              | (Ok lr2, t2) => (Ok (as_stored c1 lr2), snd (insert_new c1 lr2), t2)
              end
     end = (r, c', t') -> (t <= t' <= Nat.max t budget)%nat).
-  { destruct (load_region pd budget fuel t key is_end false) as [[lr|e] t1] eqn:E1; apply load_region_bounded in E1.
+  { destruct (load_for pd budget c fuel t key is_end) as [[lr|e] t1] eqn:E1; apply load_for_bounded in E1.
     - destruct (insert_new c lr) as [ok c1]. destruct ok; [intros H; injection H as _ _ <-; lia|].
-      destruct (load_region pd budget fuel t1 key is_end false) as [[lr2|e] t2] eqn:E2; apply load_region_bounded in E2; intros H; injection H as _ _ <-; lia.
+      destruct (load_for pd budget c1 fuel t1 key is_end) as [[lr2|e] t2] eqn:E2; apply load_for_bounded in E2; intros H; injection H as _ _ <-; lia.
     - intros H; injection H as _ _ <-; lia. }
   destruct (search (c_sorted c) key is_end) as [x|]; [|exact Hmiss].
   destruct (r_expired x); [exact Hmiss|]. destruct (flagged x).
-  - destruct (load_region pd budget fuel t key is_end false) as [[lr|e] t1] eqn:E1; apply load_region_bounded in E1; intros H; injection H as _ _ <-; lia.
+  - destruct (load_for pd budget c fuel t key is_end) as [[lr|e] t1] eqn:E1; apply load_for_bounded in E1; intros H; injection H as _ _ <-; lia.
   - intros H; injection H as _ _ <-; lia.
 Qed.
 (* with the budget used up a cache miss is an error, and nothing is changed *)
 Lemma find_region_by_key_exhausted fuel t c key is_end : (budget <= t)%nat -> (0 < fuel)%nat ->
   search (c_sorted c) key is_end = None -> find_region_by_key pd budget fuel t c key is_end = (Err 1, c, t).
 Proof.
-  intros Hb Hf Hs. unfold find_region_by_key. rewrite Hs. destruct fuel as [|f]; [lia|]. cbn [load_region]. unfold call.
-  replace (Nat.ltb t budget) with false by (symmetry; apply Nat.ltb_ge; exact Hb). reflexivity.
+  intros Hb Hf Hs. unfold find_region_by_key. rewrite Hs. destruct fuel as [|f]; [lia|].
+  assert (Hc : forall q, call pd budget t q = None).
+  { intros q. unfold call. replace (Nat.ltb t budget) with false by (symmetry; apply Nat.ltb_ge; exact Hb). reflexivity. }
+  unfold load_for. destruct (is_end && is_nil key).
+  - cbn [load_last scan_loop]. rewrite Hc. reflexivity.
+  - cbn [load_region]. rewrite Hc. reflexivity.
 Qed.
 End PD.
